@@ -303,20 +303,37 @@ Fixpoint threads_ok (relax : bool) (c : case10) (i : nat) (os : list op) (gs : l
   | _, _ => false
   end.
 
+(* diagnostic only *)
 Definition full_ops (c : case10) : bool :=
   forallb (fun o => match o with OLoad f => is_empty f | ORender _ => true end) (c_ops c).
 
-(* production mode: all renders answered from ONE version of the tree *)
+(* production mode with explicit FILTERED loads: such a load re-reads the files under its filter (that is
+   what it is for), and one that fails resets the loaded flag, so that the next render loads everything
+   again.  "Loaded once" therefore speaks about the names no filtered load of the case covers, in cases
+   where no filtered load failed (both read off the calls and Go's own results) *)
+Definition covered (c : case10) (n : bytes) : bool :=
+  existsb (fun o => match o with OLoad f => negb (is_empty f) && prefixb f n | ORender _ => false end) (c_ops c).
+
+Definition filtered_failed (c : case10) : bool :=
+  existsb (fun og : op * gres =>
+             match og with
+             | (OLoad f, GR (RLoadErr | RLoadPanic)) => negb (is_empty f)
+             | _ => false
+             end) (combine (c_ops c) (g_res c)).
+
+(* production mode: all renders (of names no filtered load covers) answered from ONE version of the tree *)
 Definition prod_consistent (c : case10) : bool :=
   let vs := versions c in
   let all_good := forallb (fun v => negb (bad_under false [] v)) vs in
+  filtered_failed c ||
   existsb (fun v =>
              forallb (fun og : op * gres =>
                         match og with
                         | (ORender n, GR (ROk out)) =>
+                          covered c n ||
                           match content false v n with Some (Some x) => beqb x out | _ => false end
                         | (ORender n, GR RNotFound) =>
-                          if all_good then is_none (content false v n) else true
+                          covered c n || (if all_good then is_none (content false v n) else true)
                         | _ => true
                         end) (combine (c_ops c) (g_res c))) vs.
 
@@ -328,9 +345,11 @@ Definition oracle10 (c : case10) : bool :=
 (* production mode, loaded once: all renders of one name that produced output produced the same *)
 Definition prod_same_name (c : case10) : bool :=
   let rs := combine (c_ops c) (g_res c) in
+  filtered_failed c ||
   forallb (fun a : op * gres =>
              match a with
              | (ORender n, GR (ROk out)) =>
+               covered c n ||
                forallb (fun b : op * gres =>
                           match b with
                           | (ORender n', GR (ROk out')) => negb (beqb n n') || beqb out out'
@@ -346,12 +365,13 @@ Definition oracle10_mid (c : case10) : bool :=
   && (c_debug c || prod_same_name c)
   && forallb (fun p => negb (gpoint_eqb p GStuck)) (g_steps c).
 
-(* domain of the property theorems *)
+(* domain of the property theorems: production mode - every call, filtered explicit loads included (since
+   repair dd313c0); debug mode - renders of non-empty names *)
 Definition in_dom10 (c : case10) : bool :=
   forallb dom_fs (versions c)
   && (if c_debug c
       then forallb (fun o => match o with ORender n => negb (is_empty n) | OLoad _ => true end) (c_ops c)
-      else full_ops c).
+      else true).
 
 (* ------------------------------------------------------------ agreement with M *)
 
